@@ -74,7 +74,8 @@ Definition ds_eqb (a b : inst_ds) : bool :=
 
 Definition snap_eqb (a b : snapshot) : bool :=
   list_eqb Z.eqb (sn_states a) (sn_states b) && ds_eqb (sn_ds a) (sn_ds b)
-  && list_eqb opt_z_eqb (sn_mean_delays a) (sn_mean_delays b).
+  && list_eqb opt_z_eqb (sn_mean_delays a) (sn_mean_delays b)
+  && list_eqb (fun x y => bool_eqb (fst x) (fst y) && bool_eqb (snd x) (snd y)) (sn_roles a) (sn_roles b).
 
 Definition sr_eqb (a b : step_result) : bool :=
   match a, b with
